@@ -21,14 +21,17 @@ import numpy as np
 from .. import tlc
 from ..core import Check, import_repo, pmap
 from . import budget_common as bc
+from . import density_common as dc
 from . import stream_common as sc
 
 OWN = {
     "C03": {"query-leaves-state-unchanged", "repeated-query-same-result",
-            "same-result-as-run-without-extra-queries", "same-state-as-run-without-extra-queries"},
+            "same-result-as-run-without-extra-queries", "same-state-as-run-without-extra-queries",
+            "query-leaves-window-unchanged", "query-leaves-manager-unchanged"},
     "C04": {"no-overspend-at-every-prefix", "result-equals-simulation"},
     "C10": {"indices-strictly-increasing-in-range", "utilities-one-per-candidate", "result-equals-simulation",
-            "state-after-update-equals-per-instance-commit", "unmatched"},
+            "state-after-update-equals-per-instance-commit", "window-after-update",
+            "manager-after-update-equals-per-instance-commit", "unmatched"},
 }
 INVARIANTS = {
     "C03": (["IndicesOK", "QueryPureInv"], []),
@@ -226,6 +229,24 @@ def chunkings_jobs(rng, quick):
 
 
 # --------------------------------------------------------------------------
+def _density_job(arg):
+    return dc.record(*arg)
+
+
+def density_jobs(pid, quick, rng):
+    jobs = []
+    for kind in dc.KINDS:
+        for n_ in range(60 if quick else 1500):
+            W, B = [(2, (1, 2)), (4, (1, 4)), (2, (1, 1)), (2, (1, 4))][n_ % 4]
+            L = int(rng.integers(1, 10))
+            xs = [int(x) for x in rng.integers(0, 5, size=L)]
+            vs = [int(v) for v in rng.choice([0, 4, 8, 12, 16], size=L)]
+            cuts = [c for c in range(1, L) if rng.random() < (0.0, 0.3, 0.6, 1.0)[n_ % 4]]
+            jobs.append((kind, bc.default_params(kind, W, B), int(rng.integers(1, 5)), xs, vs, cuts,
+                         pid == "C03" or n_ % 3 == 0, int(rng.integers(0, 50))))
+    return jobs
+
+
 def _proto_job(arg):
     name, is_manager, budget, w, seed, n, chunk_mode, dseed = arg
     rng = np.random.RandomState(dseed)
@@ -352,6 +373,20 @@ def main_for(pid, tier="quick", seed=0):
             chk.violation(key_of(tr, r), what, {"module": module, "trace": tr, "rejection": r, "call": describe(tr)})
 
     validate("BudgetTrace", traces, bc.finding_key, bc.describe)
+    if pid in ("C03", "C10"):
+        # the density strategy layer, exact: window_, min_dist_ and the nested manager after every call
+        chk.model_check("MC_DensityQS", "MC_DensityQS.cfg")
+        code = tlc.run_tlc("MC_DensityQS", "MC_DensityQS_code.cfg", timeout=600)
+        if not any("ChunkInvariant" in e or "NoOverspend" in e for e in code.errors):
+            raise tlc.MachineryError("DensityQS with Advance=FALSE (the code) unexpectedly satisfies ChunkInvariant")
+        chk.notes.append("DensityQS: per-instance reference (Advance=TRUE) satisfies ChunkInvariant/NoOverspend, the "
+                         "code-shaped variant (manager not advanced inside a chunk) violates them - the C04 finding")
+        dtraces = pmap(_density_job, density_jobs(pid, quick, rng))
+        chk.count(len(dtraces))
+        for t in dtraces:
+            chk.case(("density", t["id"]))
+        chk.sample({"density_trace": {k: dtraces[3][k] for k in ("id", "P", "ws", "events")}})
+        validate("DensityTrace", dtraces, dc.finding_key, lambda t: t["concrete"])
     pj = proto_jobs(pid, quick, rng)
     pairs = pmap(_proto_job, pj, chunksize=1)
     ptraces = [t for pair in pairs for t in pair]
